@@ -669,6 +669,14 @@ package gedcom
 //@   loop 1 iter advances: implies(nAtt > old(nAtt), previousNode == node && lastTrim == old(previousNode))
 //@   loop 1 invariant trimmed: nTrim == nAtt
 //@   ensures trimmed-all: implies(isnil(result1), nTrim == nAtt + 1)
+// C01: what the encoder writes for a family is read back whatever stands
+// between the family line and its HUSB / WIFE / CHIL lines - the family handed
+// to the line parser is the most recently decoded family node, nested or not,
+// and it is not forgotten when another record starts
+//@   ghost lastFam int = 0
+//@   oncall parseLine check family-is-the-latest-decoded: arg2 == lastFam
+//@   oncall parseLine do lastFam = ite(isnil(result2) && typeis(result0, "*gedcom.FamilyNode"), data(result0), lastFam)
+//@   loop 1 invariant family-tracked: family == lastFam
 // C01: the BOM flag of the document is what the reader found
 //@   ghost bom bool = false
 //@   oncall Decoder.consumeOptionalBOM do bom = result
@@ -734,10 +742,17 @@ package gedcom
 // API misuse; the decoder never reaches that (C03). For the invariant only
 // the objects that do get created matter.
 //@ func newNodeWithChildren
-//@   props C14
-//@   safety
+//@   props C14 C02 C01
+//@   safety C14
 //@   inline
 //@   allowpanic "cannot create"
+// C02 / C01 (the tag table): whatever specialised kind of node is made for a
+// line, it is ONE node, and it carries the tag that was read and the value
+// that was read (record kinds that have no value of their own keep it empty).
+//@   ghost nMade int = 0
+//@   deepcall newSimpleNode check carries-the-tag-and-value-read: arg0 == tag && (arg1 == value || arg1 == "")
+//@   deepcall newSimpleNode do nMade = nMade + 1
+//@   ensures one-node-per-line: nMade == 1
 //@ func newChildNodeWithIndividual
 //@   props C14
 //@   safety
@@ -758,6 +773,10 @@ package gedcom
 //@ sweep C14: newNode, NewNode, FamilyNode.addChild, shallowCopyNode, SimpleNameFilter$1, RemoveDuplicateNamesFilter$1
 //@ sweep C14: FamilyNode.SetWifePointer, FamilyNode.SetHusbandPointer, Document.AddIndividual, Document.AddFamily
 //@ sweep C14: simpleDocumentNode.ShallowCopy
+// _UID values come straight from the file: turning one into a UUID slices at
+// fixed offsets, in bounds because the pattern that lets it through has no
+// word shorter than 32 (regexp fact of the literal pattern).
+//@ sweep C14: NewUUIDFromString, UniqueIDNode.UUID
 // The child lookups go through reflection (Compound) and a sync.Map cache
 // (NodesWithTag): outside the engine. Assumed: they return without panicking,
 // write no node field, and NodesWithTag returns no nil element (children lists
